@@ -13,6 +13,8 @@ Inductive c06case :=
        (expect : res unit)
 | CJwe (e : jwe_entry) (src : keysrc) (alg enc : string) (k : key) (sender : option key)
        (ek : epk) (mat : bool) (expect : res unit)
+| CJweMulti (encrypt verify_all : bool) (src : keysrc) (enc : string) (rs : list mrec)
+            (sender : option key) (expect : res unit)
 | CUse (u : string) (k : key) (expect : res unit)        (* key.check_use(u) *)
 | CAlg (a : string) (k : key) (expect : res unit)        (* key.check_alg(a) *)
 | COp (op : string) (k : key) (expect : res unit)        (* key.check_key_op(op) *)
@@ -45,6 +47,8 @@ Definition c06_model (c : c06case) : res unit :=
   match c with
   | CJws e src alg k mat siglen _ => jws_run prim_std e src alg k mat siglen
   | CJwe e src alg enc k s ek mat _ => jwe_run prim_std e src alg enc k s ek mat
+  | CJweMulti encrypt va src enc rs s _ =>
+      if encrypt then jwe_multi_enc prim_std src enc rs s else jwe_multi_dec prim_std va src enc rs s
   | CUse u k _ => check_use u k
   | CAlg a k _ => check_alg a k
   | COp op k _ => check_key_op op k
@@ -58,6 +62,11 @@ Definition c06_check (c : c06case) : bool :=
       if negb mat && is_ok (jwe_run prim_std e src alg enc k s ek true)
       then mat_failure x
       else res_sim (c06_model c) x
+  | CJweMulti _ _ _ _ _ _ x =>
+      match c06_model c with
+      | Err (EJose DecodeError) => mat_failure x
+      | m => res_sim m x
+      end
   | CUse _ _ x | CAlg _ _ x | COp _ _ x => res_sim (c06_model c) x
   | CWarn t w => Bool.eqb (oct_import_warns t) w
   end.
